@@ -68,7 +68,8 @@ def check_case(case):
     whole = {"NCPR": o.get_NCPR(), "FCR": o.get_FCR(), "hydropathy": o.get_uversky_hydropathy()}
     whole["sigma"] = 0.0 if whole["FCR"] == 0 else whole["NCPR"] ** 2 / whole["FCR"]
     sig_prof = {}
-    for w in range(1, N + 4):
+    wins = range(1, N + 4) if N <= 16 else sorted({1, 2, 4, 5, 6, 8, 9, 12, N // 2, N - 1, N, N + 1, N + 2})
+    for w in wins:
         for name, g in getters:
             calls += 1
             try:
@@ -165,15 +166,21 @@ def shard(s):
     return acc
 
 
+def _unused():
+    acc = None
+    return acc
+
+
 def run(tier, seed, t0):
     N = 5 if tier == "quick" else 7
     shards = spaces.word_shards(ALPHA, 1, N, 3)
     extra = [(L, pre) for L, pre in [(8, "KEGP"), (9, "PGEKK"), (12, "KKEEGGPPKE")]]
+    extra += [(44, ("KEGP" * 11)[:42]), (64, ("KKEGPGEEKP" * 7)[:63]), (131, ("KEGPPGEK" * 17)[:130])]
     acc = core.pmap(shard, shards + extra)
     return core.finish(
         PROP, tier, seed, acc, t0,
-        rule="every word over {K,E,G,P} of length 1..%d (plus all completions of three 8-12-mer prefixes) x every window "
-             "1..N+3 x {get_linear_NCPR, FCR, sigma, hydropathy} + get_linear_sequence_composition with default, explicit-default "
+        rule="every word over {K,E,G,P} of length 1..%d (plus all completions of three 8-12-mer prefixes, and 44-, 64- and 131-residue sequences with 13 selected windows) x every "
+             "window 1..N+3 x {get_linear_NCPR, FCR, sigma, hydropathy} + get_linear_sequence_composition with default, explicit-default "
              "and 5 user group lists: shape (2,N), positions 1..N, entry i+floor((w-1)/2) = exact statistic of window i, flanks 0, "
              "w=N equals the whole-sequence getter, w>N must raise, and delta == mean over w=5,6 of the mean squared deviation of "
              "the sigma profile from the global sigma; non-trivial = words with >=2 distinct letters" % N,
